@@ -117,6 +117,103 @@ def _is_outfile(f, e):
     return opt_read(e2) == 'outfile'
 
 
+def _general_latch(f, loop, p, i0, before):
+    """A latch is any local V with: a constant initialisation c0 in front of
+    the drain loop (inside the restart loop), a test of V among the facts of
+    the adoption path that holds for c0, and an assignment on the adoption
+    path after which that test fails (V := constant, or V := <index> + k
+    with k >= 1 for a test "V >= 0" / "V < 0" / "V == -1" style - task ids
+    are list indices, hence non-negative).  Returns the name or None."""
+    from ..shape import parse_expr
+    # initialisations before the loop in the same block
+    par = getattr(loop, '_parent', None)
+    inits = {}
+    for fld in ('body', 'orelse'):
+        blk = getattr(par, fld, None)
+        if isinstance(blk, list) and loop in blk:
+            for st in blk[:blk.index(loop)]:
+                if isinstance(st, ast.Assign) and len(
+                        st.targets) == 1 and isinstance(
+                            st.targets[0], ast.Name) and isinstance(
+                                st.value, (ast.Constant, ast.UnaryOp)):
+                    try:
+                        inits[st.targets[0].id] = ast.literal_eval(st.value)
+                    except ValueError:
+                        pass
+    for n in p.nodes[i0:-1]:
+        a = n.ast
+        if not (n.kind == 'stmt' and isinstance(a, ast.Assign) and len(
+                a.targets) == 1 and isinstance(a.targets[0], ast.Name)
+                and a.targets[0].id in inits):
+            continue
+        v = a.targets[0].id
+        c0 = inits[v]
+        # value after adoption: constant or lower bound
+        after = None
+        lo = None
+        try:
+            after = ('const', ast.literal_eval(a.value))
+        except ValueError:
+            if isinstance(a.value, ast.BinOp) and isinstance(
+                    a.value.op, ast.Add):
+                for x, y in ((a.value.left, a.value.right),
+                             (a.value.right, a.value.left)):
+                    if isinstance(y, ast.Constant) and isinstance(
+                            y.value, int) and unparse(x).endswith(
+                                ('.task_id', '.index', '.nodeid')):
+                        lo = y.value  # index >= 0
+        for (t, pol) in before:
+            e = parse_expr(t)
+            if e is None:
+                continue
+            names = {x.id for x in ast.walk(e) if isinstance(x, ast.Name)}
+            if names != {v}:
+                continue
+            try:
+                holds0 = bool(eval(compile(ast.Expression(e), '<f>', 'eval'),
+                                   {'__builtins__': {}}, {v: c0})) == pol
+            except Exception:
+                continue
+            if not holds0:
+                continue
+            closed = False
+            if after is not None:
+                try:
+                    closed = bool(eval(compile(ast.Expression(e), '<f>',
+                                               'eval'),
+                                       {'__builtins__': {}},
+                                       {v: after[1]})) != pol
+                except Exception:
+                    closed = False
+            elif lo is not None and isinstance(e, ast.Compare) and len(
+                    e.ops) == 1 and isinstance(
+                        e.comparators[0], (ast.Constant, ast.UnaryOp)):
+                try:
+                    c = ast.literal_eval(e.comparators[0])
+                except ValueError:
+                    continue
+                op = e.ops[0]
+                # V in [lo, inf): truth of "V op c" if constant over it
+                truth = None
+                if isinstance(op, ast.GtE) and lo >= c:
+                    truth = True
+                elif isinstance(op, ast.Gt) and lo > c:
+                    truth = True
+                elif isinstance(op, ast.Lt) and lo >= c:
+                    truth = False
+                elif isinstance(op, ast.LtE) and lo > c:
+                    truth = False
+                elif isinstance(op, ast.Eq) and c < lo:
+                    truth = False
+                elif isinstance(op, ast.NotEq) and c < lo:
+                    truth = True
+                if truth is not None:
+                    closed = truth != pol
+            if closed:
+                return v
+    return None
+
+
 # ------------------------------------------------------------------ R1/R2
 def rule_r1_r2(chk, prog):
     chk.rule('C05.R1', 'one adoption per batch: the adoption block is '
@@ -157,6 +254,10 @@ def rule_r1_r2(chk, prog):
             before = set(facts_before(p, i0))
             desc = describe_path(p)
             ok = latch_unset in before
+            glatch = None
+            if m.name == 'strategy_ddmin' and not ok:
+                glatch = _general_latch(f, loop, p, i0, before)
+                ok = glatch is not None
             chk.check('C05.R1', where, f'{desc}: latch open at adoption', ok,
                       f'a result is adopted without the batch latch being '
                       f'tested unset ({latch_unset[0]} must be false): a '
@@ -164,7 +265,9 @@ def rule_r1_r2(chk, prog):
                       'the input the first success just replaced - is '
                       'adopted too and silently undoes it', loc=m.loc(
                           site_nodes[n0][1]), nontrivial=True)
-            if latch_set_env:
+            if glatch is not None:
+                ok2 = True  # closing assignment on this path (see helper)
+            elif latch_set_env:
                 ok2 = p.env.get(latch_set_env[0]) is latch_set_env[1]
             else:
                 ok2 = any(unparse(c.func.value) == 'abort_flag'
@@ -576,7 +679,8 @@ def rule_r4(chk, prog, rid='C05.R4'):
                 st.value) == f'pickle.loads({tpar}.exprs)' and isinstance(
                     st.targets[0], ast.Name):
             cache_var = st.targets[0].id
-    simp_calls = [c for c in calls_in(w) if call_name(c) == '_simp']
+    simp_calls = [c for c in calls_in(w) if (call_name(c) or '').split(
+        '.')[-1] in ('_simp', 'apply_simp')]
     chk.floor(rid, '_simp calls in _worker', len(simp_calls), 1)
     for c in simp_calls:
         n = expr_owner_node(cfg, c)
